@@ -6,20 +6,28 @@ ID = "C16"
 MODEL_MODULES = ["Base", "Index", "Broadcast", "Linalg"]
 HANDLERS = ["h_c16.ml"]
 CLAIM = dict(
-    text=("Kernel-checked for every rank and all positive extents, over any scalar type with an associative addition with "
-          "neutral element (no other law is needed: the code sums in index order): index::shape_matmul equals NumPy's rule "
-          "(batch broadcasting, 1-d promotion on either side, refusal included); every element of view::matmul on operands "
-          "of rank >= 2 is sum_k a[bcast_a(i), r, k] * b[bcast_b(i), k, c] with k over exactly 0..K-1 and the batch "
-          "coordinates read at 0 on stretched axes and dropped on missing ones; the shapes of dot / inner / outer / vecdot "
-          "/ diagonal / trace and the elements of vecdot, outer, diagonal and trace (offset >= 0, non-empty diagonal) equal "
-          "the defining sums. PARTIAL (shape or nothing proved, elements tied by correspondence only): matmulv2, dot and "
-          "inner elements, tensordot, kron. Refuted parts (known findings): view::matmul with a 1-d operand (out-of-range "
-          "access; matmulv2 is right), diagonal/trace with a negative offset, trace of an empty diagonal, diagonal whose "
-          "offset exceeds the extent. Tied to the C++ by running view:: and array:: matmul, matmulv2, dot, inner, outer, "
-          "vecdot, tensordot (integer and explicit axes), kron, diagonal, trace on run-time shaped and on fixed-shape "
-          "operands with integer data."),
-    ref="5.16", technique="Coq proof (induction over batch shapes / contraction range) + differential correspondence with the extracted model",
-    extra="arguments NumPy rejects (unequal contraction lengths, incompatible batch shapes) are outside C16 (C15): spec 'unspecified'")
+    text=("Kernel-checked for every rank and all positive extents, over any scalar type whose addition is associative with a "
+          "right-neutral zero (no commutativity / distributivity needed: the code adds the products in index order): "
+          "index::shape_matmul = NumPy's rule (batch broadcasting, 1-d promotion on either side, refusal included); every "
+          "element of view::matmul on operands of rank >= 2 is sum_{k<K} a[bcast_a(i), r, k] * b[bcast_b(i), k, c] (stretched "
+          "batch axes read at 0, missing ones dropped); view::matmulv2 (tile/reshape/transpose/reshape/multiply/sum) yields the "
+          "same shape and the same elements, hence equals view::matmul; dot (1-d and n-d second operand), inner, vecdot, outer, "
+          "diagonal and trace (offset >= 0, any two distinct axes of either sign, non-empty diagonal for trace) yield a view "
+          "with NumPy's shape and elements equal to the defining sums over exactly 0..K-1. PARTIAL: tensordot (explicit axes): "
+          "success and shape proved, elements by correspondence only; kron: shape of a returned view proved, success and "
+          "elements by correspondence only; matmulv2 with a 1-d operand, tensordot with integer axes, fixed-shape operand "
+          "kinds: correspondence only. REFUTED parts (known findings, each with a _refuted theorem): view::matmul / "
+          "array::matmul with a 1-d operand (out-of-range access on run-time shaped operands; matmulv2 is right), "
+          "diagonal / trace with a negative offset, trace of an empty diagonal, diagonal / trace whose offset exceeds the "
+          "extent. Tied to the C++ by running view:: and array:: matmul, view::matmulv2, dot, inner, outer, vecdot, "
+          "tensordot (integer and explicit axes), kron, diagonal, trace on run-time shaped operands and a sample of "
+          "fixed-shape (nested std::array) operands with integer data, under NDEBUG and under ASan+UBSan."),
+    ref="5.16", technique="Coq proof (view combinators characterised once: reshape = same row-major rank, tile = per-axis mod, "
+                           "broadcasting multiply via the C06 element theorem, sum of the last axis; then composed per routine) "
+                           "+ differential correspondence with the extracted model",
+    extra="arguments NumPy rejects (unequal contraction lengths, incompatible batch shapes, axis1 == axis2) are outside C16 "
+          "(acceptance is C15): spec 'unspecified'. dom=1 marks the hypotheses of the theorem of that routine (for the PARTIAL "
+          "routines: NumPy-valid inputs; there model == spec is only tested, not proved)")
 RULE = ("matmul: all pairs of shapes (batch_a ++ [n,k]) x (batch_b ++ [k',m]) with batch dims 0..2, extents 1..3 (quick: every batch pair "
         "with a sampled (n,k,k',m); thorough: dim up to 4, extents up to 4), plus every 1-d promotion pattern, through view::matmul, "
         "array::matmul and view::matmulv2; dot / inner / outer / vecdot / kron on pairs of shapes dim 1..3(4) extents 1..3; tensordot "
@@ -27,9 +35,9 @@ RULE = ("matmul: all pairs of shapes (batch_a ++ [n,k]) x (batch_b ++ [k',m]) wi
         "contractible; diagonal / trace for every axis pair (both signs) and offsets -3..4; a sample through fixed-shape "
         "(nested std::array) operands. Data are distinct integers (iota from a random start, alternating sign) so any permuted or "
         "missing term changes the value. non-trivial = some operand of dim >= 2 with an extent > 1; distinct = distinct case lines")
-THEOREM_STATUS = {"proved": ["C16_matmul_shape_spec", "C16_matmul_elem_spec", "C16_dot_spec", "C16_inner_spec", "C16_vecdot_spec",
+THEOREM_STATUS = {"proved": ["C16_matmul_shape_spec", "C16_matmul_elem_spec", "C16_matmul_v2_spec", "C16_dot_spec", "C16_inner_spec", "C16_vecdot_spec",
                              "C16_outer_spec", "C16_diagonal_spec", "C16_trace_spec"],
-                  "partial": [],
+                  "partial": ["C16_tensordot_shape_partial", "C16_kron_shape_partial"],
                   "refuted": ["C16_matmul_v1_1d_refuted", "C16_diagonal_negative_offset_refuted", "C16_trace_empty_refuted",
                               "C16_diagonal_beyond_refuted"]}
 ASSUMPTIONS = ["extents are positive", "the scalar addition is associative with a right-neutral zero (integers in the correspondence)",
